@@ -52,9 +52,11 @@ m('revert-F3-verifying-ro', 'C06', 'VerifyingAdapterRegistry keeps its ro when a
 m('revert-F4-rebuild-subregistries', 'C06', 'rebuild() resets _v_subregistries (defect F4)',
   [(A, "        if '_v_subregistries' not in self.__dict__:\n            self._v_subregistries = weakref.WeakKeyDictionary()", "        self._v_subregistries = weakref.WeakKeyDictionary()")],
   ['C06', 'C05'])
-m('revert-F5-borrowed-cache', 'C11', 'C _lookup stores through a borrowed cache pointer across the uncached callback (defect F5)',
-  [(C, "        Py_INCREF(cache);\n        result = PyObject_CallMethodObjArgs(\n          OBJECT(self), str_uncached_lookup, required, provided, name, NULL);\n        if (result == NULL) {\n            Py_DECREF(cache);\n            Py_DECREF(required);\n            return NULL;\n        }\n        status = PyDict_SetItem(cache, key, result);\n        Py_DECREF(cache);",
-       "        result = PyObject_CallMethodObjArgs(\n          OBJECT(self), str_uncached_lookup, required, provided, name, NULL);\n        if (result == NULL) {\n            Py_DECREF(required);\n            return NULL;\n        }\n        status = PyDict_SetItem(cache, key, result);")])
+m('revert-F5-borrowed-cache', 'C11', 'C _lookup gives up its reference to the cache before the uncached callback and stores through the dangling pointer afterwards (defect F5)',
+  [(C, "        result = PyObject_CallMethodObjArgs(\n          OBJECT(self), str_uncached_lookup, required, provided, name, NULL);\n        if (result == NULL) {\n            Py_DECREF(cache);\n            Py_DECREF(required);\n            return NULL;\n        }\n        status = PyDict_SetItem(cache, key, result);\n        Py_DECREF(cache);",
+       "        Py_DECREF(cache);\n        result = PyObject_CallMethodObjArgs(\n          OBJECT(self), str_uncached_lookup, required, provided, name, NULL);\n        if (result == NULL) {\n            Py_DECREF(required);\n            return NULL;\n        }\n        status = PyDict_SetItem(cache, key, result);")])
+m('revert-F17-borrowed-cache-while-hashing-the-key', 'C11', 'C _subcache / _getcache hand out borrowed cache dictionaries and probe them while hashing the name / provided / key runs Python code (defect F17)',
+  'revert:815ebd2')
 m('revert-F6-no-lock', 'C11', 'changed()/_subscribe() of a lookup object race between threads (defect F6)',
   [(A, "        with self._required_lock:\n            super().changed(None)\n            for r in tuple(self._required.keys()):\n                r = r()\n                if r is not None:\n                    r.unsubscribe(self)\n            self._required.clear()",
        "        super().changed(None)\n        for r in self._required.keys():\n            r = r()\n            if r is not None:\n                r.unsubscribe(self)\n        self._required.clear()"),
@@ -91,7 +93,7 @@ m('own-C11-leak-required-on-error-path', 'C11', 'C _lookup forgets Py_DECREF(req
 m('revert-F14-leak-required-on-failed-cache-probe', 'C11', 'C _lookupAll returns without releasing the required tuple when the cache probe fails (defect F14)',
   [(C, "    cache = _subcache(self->_mcache, provided);\n    if (cache == NULL) {\n        Py_DECREF(required);\n        return NULL;\n    }", "    cache = _subcache(self->_mcache, provided);\n    if (cache == NULL)\n        return NULL;")])
 m('revert-F11c-swallowed-hash-error-in-lookup', 'C10', 'C _lookup cache probe swallows the error from hashing the key (defect F11c)',
-  [(C, "    result = PyDict_GetItemWithError(cache, key);\n    if (result == NULL && PyErr_Occurred()) {\n        /* e.g. an unhashable element of `required` */\n        Py_DECREF(required);\n        return NULL;\n    }\n", "    result = PyDict_GetItem(cache, key);\n")])
+  [(C, "    result = PyDict_GetItemWithError(cache, key);\n    if (result == NULL && PyErr_Occurred()) {\n        /* e.g. an unhashable element of `required` */\n        Py_DECREF(cache);\n        Py_DECREF(required);\n        return NULL;\n    }\n", "    result = PyDict_GetItem(cache, key);\n")])
 
 m('revert-F15-verify-before-first-changed', 'C11', 'Python VerifyingBase has no snapshot defaults: a lookup during rebuild() raises AttributeError (defect F15)',
   [(A, "    _verify_ro = ()\n    _verify_generations = None\n\n    def changed(self, originally_changed):\n        LookupBaseFallback.changed(self, originally_changed)  # noqa F821", "    def changed(self, originally_changed):\n        LookupBaseFallback.changed(self, originally_changed)  # noqa F821")])
@@ -109,6 +111,12 @@ try:
     for name, prop, what, edits, check_with in M:
         sh('git', '-C', WT, 'checkout', '--', '.')
         ok = True
+        if isinstance(edits, str) and edits.startswith('revert:'):
+            r = sh('git', '-C', WT, 'revert', '--no-commit', edits.split(':', 1)[1])
+            if r.returncode != 0:
+                print('!! %s: %s' % (name, r.stderr[-300:])); sh('git', '-C', WT, 'revert', '--abort'); continue
+            sh('git', '-C', WT, 'reset', '-q')
+            edits = []
         for f, old, new in edits:
             p = os.path.join(WT, f)
             s = open(p).read()
